@@ -254,6 +254,8 @@ def check(ctx):
         detail="__getitem__ returns the stored object itself and invalidates only at hand-out time; detype() later serves the memo",
     )
 
+    getitem_invalidation(ctx, "R2", gi)
+
     # ------------------------------------------------------------------ R3
     triples = []
     ens = mod.assign_value("ENSURERS")
@@ -528,6 +530,29 @@ def _typed_store(ctx, mod, meths):
             ctx.ob("R11", f"{EN}:Env.{nm}", f"`{short(a, 60)}` puts a converted (or conversion-free) value into the store", ok, key=f"Env.{nm}|raw-store|{unparse(val)[:30]}", where=loc(a), detail=why)
     if n < 4:
         raise AnalysisError(f"{EN}: only {n} store sites of Env found")
+
+
+
+def getitem_invalidation(ctx, rule, gi=None):
+    """shared with C08 (a $PATH edit must reach the child's PATH string)"""
+    if gi is None:
+        from ..engine.loader import class_methods as _cm
+
+        gi = _cm(ctx.repo.module(EN).cls("Env")).get("__getitem__")
+        if gi is None:
+            raise AnchorMissing(f"{EN}:Env.__getitem__")
+    # the hand-out-time invalidation (what there is of a protection today) covers every mutable container: the guard over the
+    # memo drop in __getitem__ is the mutable-container test alone - an exemption by type or by 'is it set' hands out a list
+    # whose in-place edits nothing reports ($PATH built from the default when unset: `$PATH.insert(0, d)` never reaches children)
+    drops = [a for a in walk_local(gi) if isinstance(a, ast.Assign) and any(unparse(t) == "self._detyped" for t in a.targets) and const_value(a.value, 0) is None]
+    if not drops:
+        raise AnalysisError(f"{EN}:Env.__getitem__: the memo is not dropped when a stored value is handed out")
+    for dr in drops:
+        gate = next((a for a in ancestors(dr) if isinstance(a, ast.If)), None)
+        conj = conjuncts(gate.test) if gate is not None else []
+        extra = [c_ for c_ in conj if not (isinstance(c_, ast.Call) and call_name(c_) == "isinstance" and len(c_.args) == 2 and "Mutable" in unparse(c_.args[1]))]
+        nested = [a for a in ancestors(dr) if isinstance(a, ast.If) and a is not gate and lexically_inside(a, gi)]
+        ctx.ob(rule, f"{EN}:Env.__getitem__", "the memo is dropped for every mutable container that is handed out (the guard is the mutable-container test alone)", gate is not None and not extra and not nested, key="getitem|invalidation-exempts-some-containers", where=loc(extra[0]) if extra else loc(dr), detail=f"also required: `{short(extra[0], 60)}`" if extra else None)
 
 
 def _lookup_purity(ctx, mod, meths):
